@@ -13,7 +13,7 @@
    follow refines the reference chown (Memfs/RefineChown.v). Memfs/RefineHistory.v puts the calls together: a reference
    filesystem working on the flat tree alone (it resolves its own path arguments against the tree's working directory), and
    the theorem that from every well-formed kind-sound state - the fresh filesystem in particular - ANY history of
-   mkfile, mkdir_p, mkdir_m, write_all, write_lines, append_all, append_line, append_lines, read_all, read_lines, remove, remove_all (off the root), symlink, readlink, readlink_abs, set_cwd, cwd, abs, chown without follow, exists / is_dir / is_file / is_symlink / is_symlink_dir / is_exec / is_readonly, mode / owner / uid / gid
+   mkfile, mkdir_p, mkdir_m, write_all, write_lines, append_all, append_line, append_lines, read_all, read_lines, remove, remove_all (off the root), symlink, readlink, readlink_abs, move_p, set_cwd, cwd, abs, chown without follow, exists / is_dir / is_file / is_symlink / is_symlink_dir / is_exec / is_readonly, mode / owner / uid / gid
    gives call by call exactly the reference's value or error kind and
    ends in exactly the reference's tree. PARTIAL: copy, chmod and chown with follow are compared with the real code state-for-state
    and judged on pre/post snapshots, and proved safe (no panic, well formed, kind-sound), but their reference-level
@@ -21,7 +21,7 @@
 From stdpp Require Import gmap.
 From Coq Require Import NArith.
 From RV Require Import Base.Str Path.Helpers Path.Expand Memfs.State Memfs.Ops Memfs.Step Memfs.Wf Memfs.WfMore Memfs.WfMove
-  Memfs.ContentFacts Memfs.MoveFacts Memfs.Spec Memfs.Refine Memfs.Kinds Memfs.RemoveAll Memfs.RefineMore Memfs.MkdirFail Memfs.RefineChown Memfs.RefineHistory Memfs.Walk Memfs.WalkOps Macros.Asserts.
+  Memfs.ContentFacts Memfs.MoveFacts Memfs.Spec Memfs.Refine Memfs.Kinds Memfs.RemoveAll Memfs.RefineMore Memfs.MkdirFail Memfs.RefineChown Memfs.RefineMove Memfs.RefineHistory Memfs.Walk Memfs.WalkOps Macros.Asserts.
 
 Theorem C01_step_no_panic : forall env m o, step env m o <> Panic.
 Proof. exact step_no_panic. Qed.
@@ -148,3 +148,16 @@ Theorem C01_history_refines_init : forall env os t rs, spec_run env (abs mfs_ini
   exists m', run env mfs_init os = Done (m', rs) /\ abs m' = t.
 Proof. exact history_refines_init. Qed.
 Print Assumptions C01_history_refines_init.
+
+(* move_p against the reference tree: same result, same tree (every node at or below the source re-keyed under the destination) *)
+Theorem C01_move_refines : forall env m s d m' r, WF m -> move_op env m s d = Done (m', r) ->
+  abs m' = (spec_move env (abs m) s d).1 /\ r = (spec_move env (abs m) s d).2.
+Proof. exact move_refines. Qed.
+Print Assumptions C01_move_refines.
+
+Theorem C01_spec_move_lookup : forall T sr dt k, ~ sr `suffix_of` dt -> ~ dt `suffix_of` sr ->
+  spec_move_nodes T sr dt !! k =
+    if decide (dt `suffix_of` k) then retarget k <$> (T !! rebase dt sr k)
+    else if decide (sr `suffix_of` k) then None else T !! k.
+Proof. exact spec_move_lookup. Qed.
+Print Assumptions C01_spec_move_lookup.
